@@ -1,7 +1,7 @@
 //! The `stream` family: a receiver that appends chunks to a buffer and re-parses it through every
 //! entry point after each read. Also the input generators for it (inputs only, no expectations).
 
-use crate::proj::{all_entry_points, huge_entry_points};
+use crate::proj::{all_entry_points, huge_entry_points, inplace_entry_points};
 use crate::util::{flat, rl, unflat, unrl, Rng};
 use serde_json::{json, Value};
 use std::io::Write;
@@ -16,6 +16,16 @@ pub struct Session {
     /// a consuming receiver: whenever the auto-detecting parser accepts, the header is taken off
     /// the front of the buffer (as many bytes as its length accessor says) and parsing goes on
     pub consume: bool,
+    /// parse in place in ONE buffer that is kept (same allocation, same address) across all the
+    /// sessions that ask for it - a receiver reusing its read buffer for the next connection
+    pub inplace: bool,
+    /// with `inplace`: what the previous connection left in the shared buffer - parsed there through
+    /// every entry point right before this session starts (results discarded)
+    pub prelude: Vec<u8>,
+}
+
+thread_local! {
+    static REUSED: std::cell::RefCell<Vec<u8>> = std::cell::RefCell::new(Vec::with_capacity(1 << 20));
 }
 
 pub fn split_each(bytes: &[u8]) -> Vec<Vec<u8>> {
@@ -64,12 +74,16 @@ pub fn session_from_json(v: &Value, idx: usize) -> Session {
             .unwrap_or_default();
         split_at(&bytes, &cuts)
     };
-    Session { sid, tag: v.get("tag").cloned().unwrap_or(json!({"g": "scenario"})), chunks, huge: v.get("huge").map(|h| (h["n"].as_u64().unwrap_or(0) + h["gib"].as_u64().unwrap_or(0) * (1u64 << 30), h["m"].as_u64().unwrap_or(0) as usize)), consume: v.get("consume").and_then(|c| c.as_bool()).unwrap_or(false) }
+    Session { sid, tag: v.get("tag").cloned().unwrap_or(json!({"g": "scenario"})), chunks, huge: v.get("huge").map(|h| (h["n"].as_u64().unwrap_or(0) + h["gib"].as_u64().unwrap_or(0) * (1u64 << 30), h["m"].as_u64().unwrap_or(0) as usize)), consume: v.get("consume").and_then(|c| c.as_bool()).unwrap_or(false), inplace: v.get("inplace").and_then(|c| c.as_bool()).unwrap_or(false), prelude: v.get("prelude").map(unrl).unwrap_or_default() }
 }
 
 pub fn run_session(s: &Session, out: &mut dyn Write) -> usize {
     let mut n = 0;
-    writeln!(out, "{}", json!({"fam": "stream", "sid": s.sid, "op": "Reset", "tag": s.tag})).unwrap();
+    if s.inplace {
+        writeln!(out, "{}", json!({"fam": "stream", "sid": s.sid, "op": "Reset", "tag": s.tag, "prelude": rl(&s.prelude)})).unwrap();
+    } else {
+        writeln!(out, "{}", json!({"fam": "stream", "sid": s.sid, "op": "Reset", "tag": s.tag})).unwrap();
+    }
     n += 1;
     let mut buf: Vec<u8> = Vec::new();
     let mut last = Value::Null;
@@ -78,9 +92,33 @@ pub fn run_session(s: &Session, out: &mut dyn Write) -> usize {
     }
     // the verdict on the empty buffer (prefix of length 0) is a state of every session
     let empty: Vec<u8> = Vec::new();
-    for chunk in std::iter::once(&empty).chain(s.chunks.iter()) {
+    if s.inplace {
+        REUSED.with(|r| {
+            let mut shared = r.borrow_mut();
+            shared.clear();
+            if !s.prelude.is_empty() {
+                shared.extend_from_slice(&s.prelude);
+                let _ = inplace_entry_points(&shared);
+                // the last thing the previous connection did was a v2 parse of its buffer
+                let _ = crate::util::guard(|| ppp::v2::Header::try_from(&shared[..]).is_ok());
+                shared.clear();
+            }
+        });
+    }
+    // (a receiver that reuses its buffer does not parse the empty buffer in between)
+    for chunk in std::iter::once(&empty).chain(s.chunks.iter()).skip(if s.inplace { 1 } else { 0 }) {
         buf.extend_from_slice(chunk);
-        let obs = all_entry_points(&buf, true);
+        let obs = if s.inplace {
+            REUSED.with(|r| {
+                let mut shared = r.borrow_mut();
+                if shared.len() + chunk.len() <= shared.capacity() {
+                    shared.extend_from_slice(chunk);
+                }
+                inplace_entry_points(&shared)
+            })
+        } else {
+            all_entry_points(&buf, true)
+        };
         writeln!(out, "{}", json!({"sid": s.sid, "op": "Recv", "c": rl(chunk), "obs": obs})).unwrap();
         n += 1;
         last = obs;
@@ -657,7 +695,7 @@ pub fn generate(name: &str, count: usize, rng: &mut Rng, sink: &mut dyn FnMut(Se
                 let mut bytes = toks.concat();
                 bytes.extend(random_trailer(rng));
                 let chunks = chunking(&bytes, rng, 6);
-                sink(Session { sid: format!("v1good-{}", i), tag: json!({"g": "v1good"}), chunks, huge: None, consume: false });
+                sink(Session { sid: format!("v1good-{}", i), tag: json!({"g": "v1good"}), chunks, huge: None, consume: false, inplace: false, prelude: Vec::new() });
             }
         }
         // single-element corruptions (C12 antecedent is re-derived by the specification)
@@ -669,7 +707,7 @@ pub fn generate(name: &str, count: usize, rng: &mut Rng, sink: &mut dyn FnMut(Se
                     bytes.extend(random_trailer(rng));
                 }
                 let chunks = if rng.chance(1, 3) { split_each(&bytes) } else { vec![bytes.clone()] };
-                sink(Session { sid: format!("v1corrupt-{}", i), tag, chunks, huge: None, consume: false });
+                sink(Session { sid: format!("v1corrupt-{}", i), tag, chunks, huge: None, consume: false, inplace: false, prelude: Vec::new() });
             }
         }
         // structural damage: separators, line endings, truncation at field boundaries, length marks
@@ -696,7 +734,7 @@ pub fn generate(name: &str, count: usize, rng: &mut Rng, sink: &mut dyn FnMut(Se
                     bytes.extend(random_trailer(rng));
                 }
                 let chunks = chunking(&bytes, rng, 5);
-                sink(Session { sid: format!("v1struct-{}", i), tag: json!({"g": "v1struct"}), chunks, huge: None, consume: false });
+                sink(Session { sid: format!("v1struct-{}", i), tag: json!({"g": "v1struct"}), chunks, huge: None, consume: false, inplace: false, prelude: Vec::new() });
             }
         }
         // byte-level mutation of lines meant to be well formed: 1-3 random edits (insert / delete /
@@ -724,7 +762,7 @@ pub fn generate(name: &str, count: usize, rng: &mut Rng, sink: &mut dyn FnMut(Se
                     bytes.extend(random_trailer(rng));
                 }
                 let chunks = chunking(&bytes, rng, 4);
-                sink(Session { sid: format!("v1mutate-{}", i), tag: json!({"g": "v1mutate"}), chunks, huge: None, consume: false });
+                sink(Session { sid: format!("v1mutate-{}", i), tag: json!({"g": "v1mutate"}), chunks, huge: None, consume: false, inplace: false, prelude: Vec::new() });
             }
         }
         // byte-level mutation of binary headers meant to be well formed
@@ -751,7 +789,7 @@ pub fn generate(name: &str, count: usize, rng: &mut Rng, sink: &mut dyn FnMut(Se
                     bytes.extend(random_trailer(rng));
                 }
                 let chunks = if bytes.len() > 120 { let n = bytes.len(); let cuts: Vec<usize> = (1..18).chain([n - 1, 231, 232, 233]).collect(); split_at(&bytes, &cuts) } else { chunking(&bytes, rng, 5) };
-                sink(Session { sid: format!("v2mutate-{}", i), tag: json!({"g": "v2mutate"}), chunks, huge: None, consume: false });
+                sink(Session { sid: format!("v2mutate-{}", i), tag: json!({"g": "v2mutate"}), chunks, huge: None, consume: false, inplace: false, prelude: Vec::new() });
             }
         }
         // every truncation point of a line (token boundaries and inside tokens) x every way the
@@ -776,7 +814,7 @@ pub fn generate(name: &str, count: usize, rng: &mut Rng, sink: &mut dyn FnMut(Se
                         bytes.extend_from_slice(b"more");
                     }
                     let chunks = if rng.chance(1, 2) { split_each(&bytes) } else { vec![bytes.clone()] };
-                    sink(Session { sid: format!("v1trunc-{}-{}", i, k), tag: json!({"g": "v1trunc"}), chunks, huge: None, consume: false });
+                    sink(Session { sid: format!("v1trunc-{}-{}", i, k), tag: json!({"g": "v1trunc"}), chunks, huge: None, consume: false, inplace: false, prelude: Vec::new() });
                 }
             }
         }
@@ -811,7 +849,7 @@ pub fn generate(name: &str, count: usize, rng: &mut Rng, sink: &mut dyn FnMut(Se
                 }
                 let cuts: Vec<usize> = (100..bytes.len().min(112)).collect();
                 let chunks = split_at(&bytes, &cuts);
-                sink(Session { sid: format!("v1len-{}", i), tag: json!({"g": "v1len"}), chunks, huge: None, consume: false });
+                sink(Session { sid: format!("v1len-{}", i), tag: json!({"g": "v1len"}), chunks, huge: None, consume: false, inplace: false, prelude: Vec::new() });
             }
         }
         // VALID TCP6 lines of an exact total length 98..=107 (address spellings chosen to hit it:
@@ -862,7 +900,7 @@ pub fn generate(name: &str, count: usize, rng: &mut Rng, sink: &mut dyn FnMut(Se
                     _ => {}
                 }
                 let chunks = split_each(&bytes);
-                sink(Session { sid: format!("v1max-{}", i), tag: json!({"g": "v1max", "len": target}), chunks, huge: None, consume: false });
+                sink(Session { sid: format!("v1max-{}", i), tag: json!({"g": "v1max", "len": target}), chunks, huge: None, consume: false, inplace: false, prelude: Vec::new() });
                 i += 1;
             }
         }
@@ -903,7 +941,7 @@ pub fn generate(name: &str, count: usize, rng: &mut Rng, sink: &mut dyn FnMut(Se
                     bytes.extend_from_slice(b"GET / HTTP/1.1\r\n");
                 }
                 let chunks = split_at(&bytes, &[cr.saturating_sub(1), cr, cr + 1, cr + 2]);
-                sink(Session { sid: format!("v1adj-{}", i), tag: json!({"g": "v1adj", "b": b, "k": k, "place": place}), chunks, huge: None, consume: false });
+                sink(Session { sid: format!("v1adj-{}", i), tag: json!({"g": "v1adj", "b": b, "k": k, "place": place}), chunks, huge: None, consume: false, inplace: false, prelude: Vec::new() });
             }
         }
         // lenient-parser forms: a VALID line in which one address or port is decorated the way
@@ -917,7 +955,8 @@ pub fn generate(name: &str, count: usize, rng: &mut Rng, sink: &mut dyn FnMut(Se
             let port_decor: [(&str, &str); 12] = [("+", ""), ("0", ""), ("", " "), ("", "\t"), ("0x", ""), ("", "."), ("", ","), ("\t", ""),
                 ("", "\0"), ("-", ""), ("", "e0"), ("", "_")];
             let fixed4: [&str; 8] = ["0x7f.0.0.1", "0177.0.0.1", "127.1", "2130706433", "1.2.3.4.", "\u{661}.2.3.4", "1.2.3.\u{ff14}", "::ffff:1.2.3.4"];
-            let fixed_port: [&str; 8] = ["\u{ff18}\u{ff10}", "\u{661}\u{662}", "8 0", "0x50", "00", "000", "00000", "0000000"];
+            let fixed_port: [&str; 14] = ["\u{ff18}\u{ff10}", "\u{661}\u{662}", "8 0", "0x50", "00", "000", "00000", "0000000",
+                "00000000000000000080", "000000000000000000080", "0000000000000000000000000000000000000443", "+00000000000000000001", "000000000000000000000", "00000000000000000000000065535"];
             let mut i = 0;
             let mut emit = |toks: &[Vec<u8>], idx: usize, elem: &str, repl: Vec<u8>, sink: &mut dyn FnMut(Session)| {
                 let base: Vec<u8> = toks.concat();
@@ -928,7 +967,7 @@ pub fn generate(name: &str, count: usize, rng: &mut Rng, sink: &mut dyn FnMut(Se
                     bytes.extend_from_slice(b"GET / HTTP/1.1\r\n");
                 }
                 let tag = json!({"g": "c12v1", "base": flat(&base), "elem": elem, "repl": flat(&repl)});
-                sink(Session { sid: format!("v1lenient-{}", i), tag, chunks: vec![bytes], huge: None, consume: false });
+                sink(Session { sid: format!("v1lenient-{}", i), tag, chunks: vec![bytes], huge: None, consume: false, inplace: false, prelude: Vec::new() });
                 i += 1;
             };
             for round in 0..count.max(1) {
@@ -998,7 +1037,7 @@ pub fn generate(name: &str, count: usize, rng: &mut Rng, sink: &mut dyn FnMut(Se
                     bytes.extend_from_slice(b"PROXY");
                 }
                 let chunks = if i % 2 == 0 { split_each(&bytes) } else { vec![bytes.clone()] };
-                sink(Session { sid: format!("v1words-{}", i), tag: json!({"g": "v1words"}), chunks, huge: None, consume: false });
+                sink(Session { sid: format!("v1words-{}", i), tag: json!({"g": "v1words"}), chunks, huge: None, consume: false, inplace: false, prelude: Vec::new() });
             }
         }
         // UNKNOWN text with characters that Unicode-aware helpers treat specially (White_Space that
@@ -1029,7 +1068,7 @@ pub fn generate(name: &str, count: usize, rng: &mut Rng, sink: &mut dyn FnMut(Se
                     bytes.extend_from_slice("\u{2028}GET".as_bytes());
                 }
                 let chunks = if i % 2 == 0 { split_each(&bytes) } else { vec![bytes.clone()] };
-                sink(Session { sid: format!("v1unicode-{}", i), tag: json!({"g": "v1unicode"}), chunks, huge: None, consume: false });
+                sink(Session { sid: format!("v1unicode-{}", i), tag: json!({"g": "v1unicode"}), chunks, huge: None, consume: false, inplace: false, prelude: Vec::new() });
             }
         }
         // a VALID TCP line with every string of up to four bytes over {SP, LF, 'x', CR} inserted
@@ -1062,7 +1101,7 @@ pub fn generate(name: &str, count: usize, rng: &mut Rng, sink: &mut dyn FnMut(Se
                 if i % 3 == 0 {
                     bytes.extend_from_slice(b"GET / HTTP/1.0\r\n");
                 }
-                sink(Session { sid: format!("v1extra-{}", i), tag: json!({"g": "v1extra"}), chunks: vec![bytes], huge: None, consume: false });
+                sink(Session { sid: format!("v1extra-{}", i), tag: json!({"g": "v1extra"}), chunks: vec![bytes], huge: None, consume: false, inplace: false, prelude: Vec::new() });
             }
         }
         // arbitrary bytes over small alphabets, incl. multi-byte characters next to CR
@@ -1075,7 +1114,7 @@ pub fn generate(name: &str, count: usize, rng: &mut Rng, sink: &mut dyn FnMut(Se
                     bytes.extend_from_slice(*rng.pick(&pieces));
                 }
                 let chunks = chunking(&bytes, rng, 3);
-                sink(Session { sid: format!("v1junk-{}", i), tag: json!({"g": "v1junk"}), chunks, huge: None, consume: false });
+                sink(Session { sid: format!("v1junk-{}", i), tag: json!({"g": "v1junk"}), chunks, huge: None, consume: false, inplace: false, prelude: Vec::new() });
             }
         }
         // text with a multi-byte character right after the first CR, all accepted-line shapes
@@ -1095,7 +1134,7 @@ pub fn generate(name: &str, count: usize, rng: &mut Rng, sink: &mut dyn FnMut(Se
                     bytes.extend_from_slice(b"tail\r\n");
                 }
                 let chunks = chunking(&bytes, rng, 4);
-                sink(Session { sid: format!("v1cr-{}", i), tag: json!({"g": "v1cr"}), chunks, huge: None, consume: false });
+                sink(Session { sid: format!("v1cr-{}", i), tag: json!({"g": "v1cr"}), chunks, huge: None, consume: false, inplace: false, prelude: Vec::new() });
             }
         }
         "v2good" => {
@@ -1110,7 +1149,7 @@ pub fn generate(name: &str, count: usize, rng: &mut Rng, sink: &mut dyn FnMut(Se
                 } else {
                     chunking(&bytes, rng, 6)
                 };
-                sink(Session { sid: format!("v2good-{}", i), tag: json!({"g": "v2good"}), chunks, huge: None, consume: false });
+                sink(Session { sid: format!("v2good-{}", i), tag: json!({"g": "v2good"}), chunks, huge: None, consume: false, inplace: false, prelude: Vec::new() });
             }
         }
         // the grid family x class of the source half x class of the destination half (all zero, all
@@ -1119,14 +1158,14 @@ pub fn generate(name: &str, count: usize, rng: &mut Rng, sink: &mut dyn FnMut(Se
             for i in 0..count {
                 let bytes = halves_header(i, rng);
                 let chunks = if i % 2 == 0 { vec![bytes.clone()] } else { chunking(&bytes, rng, 4) };
-                sink(Session { sid: format!("v2halves-{}", i), tag: json!({"g": "v2halves"}), chunks, huge: None, consume: false });
+                sink(Session { sid: format!("v2halves-{}", i), tag: json!({"g": "v2halves"}), chunks, huge: None, consume: false, inplace: false, prelude: Vec::new() });
             }
         }
         "v2corrupt" => {
             for i in 0..count {
                 let (tag, bytes) = corrupt_v2(rng);
                 let chunks = if rng.chance(1, 4) && bytes.len() < 100 { split_each(&bytes) } else { vec![bytes.clone()] };
-                sink(Session { sid: format!("v2corrupt-{}", i), tag, chunks, huge: None, consume: false });
+                sink(Session { sid: format!("v2corrupt-{}", i), tag, chunks, huge: None, consume: false, inplace: false, prelude: Vec::new() });
             }
         }
         // an accepted header followed by more than 64 KiB in the same buffer
@@ -1139,7 +1178,7 @@ pub fn generate(name: &str, count: usize, rng: &mut Rng, sink: &mut dyn FnMut(Se
                 bytes.extend(std::iter::repeat(fill).take(extra));
                 let n = bytes.len();
                 let chunks = split_at(&bytes, &[hl.saturating_sub(1), hl, hl + 1, hl + 65535, hl + 65536, n - 1]);
-                sink(Session { sid: format!("bigtrail-{}", i), tag: json!({"g": "bigtrail"}), chunks, huge: None, consume: false });
+                sink(Session { sid: format!("bigtrail-{}", i), tag: json!({"g": "bigtrail"}), chunks, huge: None, consume: false, inplace: false, prelude: Vec::new() });
             }
         }
         // buffers of 4 GiB and more: a head (complete v2 header, v2 header with part of its
@@ -1179,7 +1218,7 @@ pub fn generate(name: &str, count: usize, rng: &mut Rng, sink: &mut dyn FnMut(Se
                 let total = 16 + (k << 32) + j;
                 let pad = total - head.len() as u64;
                 let m = need.max(head.len()) - head.len() + 130;
-                sink(Session { sid: format!("huge-{}", i), tag: json!({"g": "huge"}), chunks: vec![head], huge: Some((pad, m)), consume: false });
+                sink(Session { sid: format!("huge-{}", i), tag: json!({"g": "huge"}), chunks: vec![head], huge: Some((pad, m)), consume: false, inplace: false, prelude: Vec::new() });
             }
         }
         // pipelined headers: two to four headers (text and binary mixed) back to back, followed by
@@ -1210,7 +1249,30 @@ pub fn generate(name: &str, count: usize, rng: &mut Rng, sink: &mut dyn FnMut(Se
                     1 => split_each(&bytes),
                     _ => split_random(&bytes, rng),
                 };
-                sink(Session { sid: format!("pipe-{}", i), tag: json!({"g": "pipe"}), chunks, huge: None, consume: true });
+                sink(Session { sid: format!("pipe-{}", i), tag: json!({"g": "pipe"}), chunks, huge: None, consume: true, inplace: false, prelude: Vec::new() });
+            }
+        }
+        // one read buffer reused for consecutive connections (same allocation, parsed in place):
+        // a header cut inside its TLV section, then - in the same buffer - another complete header
+        // with the same fixed part and OTHER addresses / TLVs; and the text analogue
+        "reuse" => {
+            for i in 0..count {
+                let fam = 1 + (i % 3) as u8;
+                let a = address_block(fam, rng);
+                let mut b = address_block(fam, rng);
+                if a == b { b[0] ^= 0x55; }
+                let tail: Vec<u8> = vec![4, 0, 3, 1, 2, 3, 0x20, 0, 1, 9];
+                let mk = |addr: &Vec<u8>, fill: u8| -> Vec<u8> { let mut body = addr.clone(); body.extend(tail.iter().map(|x| x ^ fill)); let mut t = body.clone(); t[addr.len()] = 4; t[addr.len() + 1] = 0; t[addr.len() + 2] = 3; t[addr.len() + 6] = 0x20; t[addr.len() + 7] = 0; t[addr.len() + 8] = 1; v2_header(0x21, (fam << 4) | 1, t.len() as u16, &t) };
+                let first = mk(&a, 0);
+                let second = mk(&b, 0x40);
+                let cut = 16 + a.len() + 1 + rng.below(tail.len() as u64 - 1) as usize;
+                let (s1, s2): (Vec<Vec<u8>>, Vec<Vec<u8>>) = if i % 4 == 3 {
+                    (vec![b"PROXY TCP4 1.2.3.4 5.6.7.8 1".to_vec()], vec![b"PROXY TCP4 9.9.9.9 8.8.8.8 65535 2\r\n".to_vec()])
+                } else {
+                    (vec![first[..cut].to_vec()], vec![second])
+                };
+                let prelude: Vec<u8> = s1.concat();
+                sink(Session { sid: format!("reuse-{}", i), tag: json!({"g": "reuse"}), chunks: s2, huge: None, consume: false, inplace: true, prelude });
             }
         }
         // control-byte pairs: count >= 65536 means all of them, otherwise axis-aligned + random
@@ -1237,7 +1299,7 @@ pub fn generate(name: &str, count: usize, rng: &mut Rng, sink: &mut dyn FnMut(Se
                 let l = lens[i % 3];
                 let body = distinct_body(l, rng);
                 let bytes = v2_header(vc, afp, l as u16, &body);
-                sink(Session { sid: format!("v2ctrl-{}", i), tag: json!({"g": "v2ctrl"}), chunks: vec![bytes], huge: None, consume: false });
+                sink(Session { sid: format!("v2ctrl-{}", i), tag: json!({"g": "v2ctrl"}), chunks: vec![bytes], huge: None, consume: false, inplace: false, prelude: Vec::new() });
             }
         }
         // declared length vs bytes present
@@ -1304,7 +1366,7 @@ pub fn generate(name: &str, count: usize, rng: &mut Rng, sink: &mut dyn FnMut(Se
                     cuts.push(65534);
                 }
                 let chunks = split_at(&bytes, &cuts);
-                sink(Session { sid: format!("v2len-{}", i), tag: json!({"g": "v2len"}), chunks, huge: None, consume: false });
+                sink(Session { sid: format!("v2len-{}", i), tag: json!({"g": "v2len"}), chunks, huge: None, consume: false, inplace: false, prelude: Vec::new() });
             }
         }
         "v2sig" => {
@@ -1314,7 +1376,7 @@ pub fn generate(name: &str, count: usize, rng: &mut Rng, sink: &mut dyn FnMut(Se
                 let val = if count >= 12 * 255 { ((i / 12) % 256) as u8 } else { rng.next() as u8 };
                 bytes[pos] = val;
                 let chunks = if rng.chance(1, 3) { split_each(&bytes[..bytes.len().min(20)]) } else { vec![bytes.clone()] };
-                sink(Session { sid: format!("v2sig-{}", i), tag: json!({"g": "v2sig"}), chunks, huge: None, consume: false });
+                sink(Session { sid: format!("v2sig-{}", i), tag: json!({"g": "v2sig"}), chunks, huge: None, consume: false, inplace: false, prelude: Vec::new() });
             }
         }
         // signatures damaged in SEVERAL bytes in ways a checksum-like comparison could cancel out:
@@ -1373,7 +1435,7 @@ pub fn generate(name: &str, count: usize, rng: &mut Rng, sink: &mut dyn FnMut(Se
                 let v = &variants[((off + i as f64 * step) as usize).min(total - 1)];
                 let mut bytes = random_v2_good(rng);
                 bytes[..12].copy_from_slice(v);
-                sink(Session { sid: format!("v2sigmulti-{}", i), tag: json!({"g": "v2sigmulti"}), chunks: vec![bytes], huge: None, consume: false });
+                sink(Session { sid: format!("v2sigmulti-{}", i), tag: json!({"g": "v2sigmulti"}), chunks: vec![bytes], huge: None, consume: false, inplace: false, prelude: Vec::new() });
             }
         }
         // what the crate's own builder emits for random call sequences, as parser input
@@ -1396,7 +1458,7 @@ pub fn generate(name: &str, count: usize, rng: &mut Rng, sink: &mut dyn FnMut(Se
                 } else {
                     chunking(&bytes, rng, 5)
                 };
-                sink(Session { sid: format!("bparse-{}", i), tag: json!({"g": "bparse"}), chunks, huge: None, consume: false });
+                sink(Session { sid: format!("bparse-{}", i), tag: json!({"g": "bparse"}), chunks, huge: None, consume: false, inplace: false, prelude: Vec::new() });
             }
         }
         // both formats in one stream
@@ -1413,7 +1475,7 @@ pub fn generate(name: &str, count: usize, rng: &mut Rng, sink: &mut dyn FnMut(Se
                     _ => { let k = rng.below(17) as usize; let mut v = bin[..k.min(bin.len())].to_vec(); v.extend(&line); v }
                 };
                 let chunks = chunking(&bytes, rng, 6);
-                sink(Session { sid: format!("mixed-{}", i), tag: json!({"g": "mixed"}), chunks, huge: None, consume: false });
+                sink(Session { sid: format!("mixed-{}", i), tag: json!({"g": "mixed"}), chunks, huge: None, consume: false, inplace: false, prelude: Vec::new() });
             }
         }
         "bytes" => {
@@ -1421,7 +1483,7 @@ pub fn generate(name: &str, count: usize, rng: &mut Rng, sink: &mut dyn FnMut(Se
                 let n = rng.below(40) as usize;
                 let bytes = rng.bytes(n);
                 let chunks = chunking(&bytes, rng, 3);
-                sink(Session { sid: format!("bytes-{}", i), tag: json!({"g": "bytes"}), chunks, huge: None, consume: false });
+                sink(Session { sid: format!("bytes-{}", i), tag: json!({"g": "bytes"}), chunks, huge: None, consume: false, inplace: false, prelude: Vec::new() });
             }
         }
         other => panic!("unknown stream generator {}", other),
